@@ -368,9 +368,15 @@ func checkC11(p *Prog, r *Report) {
 	r.NotCov = append(r.NotCov,
 		"byte equality of decode/encode for all messages (differential testing against the reference codec); only the layout of the leading fields and their field mapping is decided",
 		"the opaque remainder (flags, values, paging state ...) which is copied verbatim")
-	r.Rule("C11.layout", "for every protocol version the partial codec's Decode, Encode and EncodedLength have the native-protocol layout of the leading fields, each value mapped to the same struct field in all three")
-	r.Rule("C11.error-discipline", "a failed primitive read/write or helper makes the codec method return a non-nil error and no message; no panic is reachable")
-	r.Rule("C11.registered", "the proxy's frame codecs are built with the three partial codecs, each registered for its opcode")
+	codecLayouts(p, r, "C11")
+}
+
+// codecLayouts holds the layout/error/registration rules (also used by C12 and C03,
+// whose re-encoded or forwarded requests depend on them).
+func codecLayouts(p *Prog, r *Report, pfx string) {
+	r.Rule(pfx+".layout", "for every protocol version the partial codec's Decode, Encode and EncodedLength have the native-protocol layout of the leading fields, each value mapped to the same struct field in all three")
+	r.Rule(pfx+".error-discipline", "a failed primitive read/write or helper makes the codec method return a non-nil error and no message; no panic is reachable")
+	r.Rule(pfx+".registered", "the proxy's frame codecs are built with the three partial codecs, each registered for its opcode")
 
 	versions := []struct {
 		name string
@@ -506,8 +512,8 @@ func checkC11(p *Prog, r *Report) {
 				}
 				errs = append(errs, cs.problems...)
 			}
-			r.check(len(bad) == 0, "C11.layout", sp.codec+"."+method, p.Pos(fn.Pos()), "5 versions", strings.Join(dedupe(bad), " || "))
-			r.check(len(errs) == 0, "C11.error-discipline", sp.codec+"."+method, p.Pos(fn.Pos()), "", strings.Join(dedupe(errs), " || "))
+			r.check(len(bad) == 0, pfx+".layout", sp.codec+"."+method, p.Pos(fn.Pos()), "5 versions", strings.Join(dedupe(bad), " || "))
+			r.check(len(errs) == 0, pfx+".error-discipline", sp.codec+"."+method, p.Pos(fn.Pos()), "", strings.Join(dedupe(errs), " || "))
 		}
 		// opcode
 		gop := p.methodOf(codec, "GetOpCode")
@@ -522,10 +528,12 @@ func checkC11(p *Prog, r *Report) {
 				}
 			})
 		}
-		r.check(okOp, "C11.registered", sp.codec+".GetOpCode", p.Pos(codec.Obj().Pos()), want, "codec is not registered for "+want)
+		r.check(okOp, pfx+".registered", sp.codec+".GetOpCode", p.Pos(codec.Obj().Pos()), want, "codec is not registered for "+want)
 	}
 	r.count("layout_cells", cells)
-	r.Floor("C11.layout", 9, "codec methods")
+	r.Floor(pfx+".layout", 9, "codec methods")
+
+	c11SkipValue(p, r, pfx)
 
 	// registration in CustomMessageCodecs and use by the raw codecs
 	e, info := p.astGlobalInit("codecs", "CustomMessageCodecs")
@@ -545,7 +553,7 @@ func checkC11(p *Prog, r *Report) {
 			miss = append(miss, n)
 		}
 	}
-	r.check(len(miss) == 0, "C11.registered", "codecs.CustomMessageCodecs", p.Pos(p.Global("codecs", "CustomMessageCodecs").Pos()), "", "missing partial codecs: "+strings.Join(miss, ","))
+	r.check(len(miss) == 0, pfx+".registered", "codecs.CustomMessageCodecs", p.Pos(p.Global("codecs", "CustomMessageCodecs").Pos()), "", "missing partial codecs: "+strings.Join(miss, ","))
 	// the proxy's client codec and the compression table are built from CustomMessageCodecs
 	initFn := p.Pkg("codecs").Func("init")
 	uses := 0
@@ -563,6 +571,94 @@ func checkC11(p *Prog, r *Report) {
 			}
 		})
 	}
-	r.check(uses >= 3, "C11.registered", "codecs.CustomRawCodec*", p.Pos(g.Pos()), fmt.Sprintf("%d raw codecs built from the partial codecs", uses),
+	r.check(uses >= 3, pfx+".registered", "codecs.CustomRawCodec*", p.Pos(g.Pos()), fmt.Sprintf("%d raw codecs built from the partial codecs", uses),
 		fmt.Sprintf("only %d of the proxy's raw codecs (plain, lz4, snappy) are built from CustomMessageCodecs", uses))
+}
+
+
+// c11SkipValue: the helper that skips a batch child's [value] accepts every
+// length the protocol allows: n >= 0 bytes follow for n > 0, nothing follows for
+// 0, -1 (null) and -2 (unset); it must not fail for any of them.
+func c11SkipValue(p *Prog, r *Report, pfx string) {
+	rule := pfx + ".value-skip"
+	r.Rule(rule, "skipping a batch child's [value] succeeds for the lengths the protocol allows: 0, -1 (null), -2 (unset, v4+) skip nothing; a positive n skips exactly n bytes; read errors are reported")
+	var fn *ssa.Function
+	for _, f := range p.ScopedFuncs("codecs") {
+		if f.Parent() != nil {
+			continue
+		}
+		reads, copies := false, false
+		eachCall(f, func(c ssa.CallInstruction) {
+			if callIsFunc(c, "primitive", "ReadInt") {
+				reads = true
+			}
+			if callIsFunc(c, "io", "CopyN") {
+				copies = true
+			}
+		})
+		if reads && copies {
+			fn = f
+		}
+	}
+	if fn == nil {
+		r.bad(rule, "codecs:skip-value", "", "no function reads an [int] length and skips that many bytes")
+		return
+	}
+	var bad []string
+	for _, n := range []int64{-2, -1, 0, 1, 7, 1 << 20} {
+		s := newSim(p)
+		s.Model = func(sm *Sim, st *State, call ssa.CallInstruction, callee *ssa.Function) []*State {
+			switch {
+			case callIsFunc(call, "primitive", "ReadInt"):
+				SetCallResult(st, call, avTup(avInt(n), AV{K: avNil}))
+				return []*State{st}
+			case callIsFunc(call, "io", "CopyN"):
+				st.addEff("skip")
+				// the number of bytes skipped is the length read
+				okN := false
+				for _, o := range origins(call.Common().Args[2]) {
+					if ex, ok := o.(*ssa.Extract); ok {
+						if cc, ok := ex.Tuple.(*ssa.Call); ok && callIsFunc(cc, "primitive", "ReadInt") {
+							okN = true
+						}
+					}
+				}
+				if !okN {
+					st.aux["wrongN"] = "1"
+				}
+				okSt, bad := st.clone(), st.clone()
+				SetCallResult(okSt, call, avTup(top, AV{K: avNil}))
+				SetCallResult(bad, call, avTup(top, AV{K: avNonNil}))
+				bad.aux["failed"] = "1"
+				return []*State{okSt, bad}
+			}
+			return nil
+		}
+		outs := s.Run(fn, newState())
+		r.count("sim_states", s.Nodes)
+		for _, o := range outs {
+			if o.Panic {
+				bad = append(bad, fmt.Sprintf("length %d: panic reachable", n))
+				continue
+			}
+			switch {
+			case o.St.aux["failed"] == "1":
+				if o.Ret.K != avNonNil {
+					bad = append(bad, fmt.Sprintf("length %d: a failed skip is not reported", n))
+				}
+			case n <= 0:
+				if o.Ret.K != avNil {
+					bad = append(bad, fmt.Sprintf("length %d (a legal null/unset/empty value) is rejected: valid BATCH bodies fail to decode", n))
+				}
+				if o.St.eff["skip"] != 0 {
+					bad = append(bad, fmt.Sprintf("length %d: bytes are skipped although none follow", n))
+				}
+			default:
+				if o.Ret.K != avNil || o.St.eff["skip"] != 1 || o.St.aux["wrongN"] == "1" {
+					bad = append(bad, fmt.Sprintf("length %d: does not skip exactly that many bytes (skips=%d, result %s)", n, o.St.eff["skip"], o.Ret))
+				}
+			}
+		}
+	}
+	r.check(len(bad) == 0, rule, "codecs."+fn.Name(), p.Pos(fn.Pos()), "lengths -2,-1,0,1,7,2^20 folded", strings.Join(dedupe(bad), " || "))
 }
